@@ -361,11 +361,17 @@ func CheckMain(id, tier string) int {
 			seen[k] += v
 		}
 		for k, v := range r.Probes {
+			if strings.HasPrefix(k, "max_") { // maxima are merged as maxima, everything else is a count
+				if v > probes[k] {
+					probes[k] = v
+				}
+				continue
+			}
 			probes[k] += v
 		}
-		if len(samples) < 6 {
+		if len(samples) < 12 {
 			for _, s := range r.Samples {
-				if len(samples) < 6 {
+				if len(samples) < 12 {
 					samples = append(samples, s)
 				}
 			}
